@@ -46,6 +46,10 @@ type Scenario struct {
 	// DeadlockIsNotMine: a deadlock ends the execution without an outcome and
 	// without a violation (C05: lost wake-ups are C12's findings); counted.
 	DeadlockIsNotMine bool
+	// NondetIsViolation (C05): behaviour that differs under one and the same
+	// choice vector (replay divergence, unstable confirmation) is the property
+	// violation itself, not an infrastructure error.
+	NondetIsViolation bool
 	// Post, when set, inspects the outcome of an execution.
 	Post func(outcome string) *explore.Violation
 }
@@ -175,7 +179,7 @@ func abortSig(msg string) string {
 // Sampling reports whether a signature is the result of the twice-run sampling
 // (same schedule, different outcome): by nature not reproducible on demand.
 func Sampling(sig string) bool {
-	return strings.HasPrefix(sig, "same-schedule-different-outcome") || strings.HasPrefix(sig, "nondeterministic/")
+	return strings.HasPrefix(sig, "same-schedule-different-outcome") || strings.HasPrefix(sig, "nondeterministic")
 }
 
 // LastKind is how the first run of the last Execute ended ("ok", "deadlock", ...).
@@ -200,6 +204,9 @@ func Execute(sc *Scenario, bound int, prefix []int, record bool, st *stateSink) 
 		}
 	}
 	x, v, infra = ex.RunOne(body(&out1), prefix, record)
+	if infra != "" && sc.NondetIsViolation && strings.Contains(infra, "replay divergence") {
+		return x, explore.Viol("nondeterministic-under-fixed-schedule", "a choice vector recorded by one execution does not fit the next execution of the same prefix: %s", infra), "", ""
+	}
 	if v != nil || infra != "" || x.Capped {
 		return x, v, infra, ""
 	}
@@ -209,10 +216,13 @@ func Execute(sc *Scenario, bound int, prefix []int, record bool, st *stateSink) 
 		var out2 string
 		_, v2, infra2 := ex.RunOne(body(&out2), x.Choices, false)
 		if infra2 != "" {
+			if sc.NondetIsViolation {
+				return x, explore.Viol("nondeterministic-under-fixed-schedule", "the second run of the same choice vector took a different path: %s", infra2), "", ""
+			}
 			return x, nil, "second run of the same schedule: " + infra2, ""
 		}
 		if v2 != nil {
-			return x, explore.Viol("nondeterministic/"+v2.Sig, "second run of the same schedule failed: %s", v2.Msg), "", ""
+			return x, explore.Viol("nondeterministic-under-fixed-schedule", "second run of the same schedule failed: %s: %s", v2.Sig, v2.Msg), "", ""
 		}
 		if out2 != out1 {
 			return x, explore.Viol("same-schedule-different-outcome", "run 1: %s\nrun 2: %s", out1, out2), "", ""
@@ -324,6 +334,9 @@ func serveWorker(scs []Scenario) {
 							got = v2.Sig
 						}
 						rp.Unstable = fmt.Sprintf("nondeterministic replay of %v: first %s then %s %s", x.Choices, v.Sig, got, infra2)
+						if sc.NondetIsViolation {
+							rp.Sig, rp.Msg, rp.Unstable = "nondeterministic-under-fixed-schedule", rp.Unstable, ""
+						}
 						break
 					}
 				}
@@ -545,6 +558,13 @@ func (e *exploration) loop() {
 					e.mu.Unlock()
 					e.fail(fmt.Sprintf("%s: %v while confirming %v", e.sc.Sc.Name, err, rp.Choices))
 					return
+				case cr.Sig != rp.Sig && Sampling(cr.Sig):
+					// the confirmation itself showed nondeterminism (C05)
+					e.mu.Lock()
+					if _, dup := e.found[cr.Sig]; !dup {
+						e.found[cr.Sig] = &explore.Found{Sig: cr.Sig, Msg: cr.Msg, Choices: rp.Choices, Tags: cr.Tags}
+					}
+					e.mu.Unlock()
 				case cr.Unstable != "" || (cr.Sig != rp.Sig && !Sampling(rp.Sig)):
 					e.fail(fmt.Sprintf("%s: %s (confirmation gave %q)", e.sc.Sc.Name, cr.Unstable, cr.Sig))
 				default:
